@@ -41,6 +41,7 @@ static int runScript(int b, size_t klen, const char* script)
 	size_t cap = 4096, inl = 0, hl = 0, ng = 0, vbad = 0, keep = keepOf(b);
 	octet* in = (octet*)malloc(cap); octet* out = (octet*)malloc(cap); octet* hdr = (octet*)malloc(cap);
 	get_t gets[64]; void* st = malloc(keep);
+	memset(st, 0xC3, keep);
 	const char* p = script;
 	vxRandBuf(iv, 16);
 	switch (b)
@@ -130,6 +131,11 @@ static int runScript(int b, size_t klen, const char* script)
 			}
 			if (g->tlen) ++ng;
 		}
+	}
+	if (getenv("VERIF_REGIONS"))
+	{	/* C07: how much of the keep()-sized state was written (relocations copy the canary along) */
+		size_t hwm = keep; while (hwm && ((octet*)st)[hwm - 1] == 0xC3) --hwm;
+		jBegin(); jStr("e", "Region"); jStr("f", BN[b]); jStr("kind", "state"); jInt("size", (long long)keep); jInt("hwm", (long long)hwm); jEnd();
 	}
 	jBegin(); jStr("op", "steps"); jStr("b", BN[b]); jStr("script", script);
 	jOct("key", key, klen); jOct("iv", iv, 16); jOct("hdr", hdr, hl); jOct("in", in, inl);
